@@ -102,7 +102,7 @@ impl Env<'_> {
     }
 
     /// Replaces the eContent of a CMS seed.
-    fn econtent(&self, name: &str, content: Vec<u8>, widen_ee: bool) -> Option<Vec<u8>> {
+    pub(super) fn econtent(&self, name: &str, content: Vec<u8>, widen_ee: bool) -> Option<Vec<u8>> {
         self.edit(name, |f| {
             let lay = m::cms_layout(f)?;
             let n = m::at_mut(f, &lay.econtent)?;
